@@ -264,4 +264,21 @@ def regRoundTrip {α β : Type} (h : Handler α β) (chan : β → β) (a : α) 
   | .ok v => .ok v
   | .error e => .error e
 
+/-- a handler built from a codec pair of the model: `str`-like serializer, deserializer errors are declared ones,
+default `type_check`
+(every exception the model's codecs raise is a declared one: `Gen.Registered.registeredExc`, pinned by
+`C20_handler_exceptions_tie`, lists `ArithmeticError` for the types whose constructor can overflow) -/
+def codecHandler {α : Type} (ser : α → List Char) (deser : List Char → Except Err α) : Handler α (List Char) where
+  ser := fun v => match v with
+    | .inst a => ser a
+    | .basic s => s
+  deser := fun v => match v with
+    | .basic s => match deser s with
+      | .ok a => .ok a
+      | .error _ => .error .listed
+    | .inst _ => .error .listed
+  isType := fun v => match v with
+    | .inst _ => true
+    | .basic _ => false
+
 end Jap.Typing
